@@ -25,7 +25,7 @@ SPEC = {
             'assumptions': ['the key authorization is token "." base64url(SHA-256(JWK thumbprint)): its JWK input is checked here (fixed-width EC coordinates in the thumbprint form); acme_common::b64_encode cut (records input length), serde_json Map::insert stubbed'],
             'harness_files': {'acme_common/src/crypto/openssl_keys.rs': 'harness/ac_keys.rs'},
             'harnesses': [
-                {'name': 'c15_ecdsa_jwk_thumbprint_p256', 'file': 'acme_common/src/crypto/openssl_keys.rs', 'timeout': 2400, 'unwindset': {'to_vec_padded': 33},
+                {'name': 'c15_ecdsa_jwk_thumbprint_p256', 'file': 'acme_common/src/crypto/openssl_keys.rs', 'timeout': 2400, 'unwindset': {'to_vec_padded': 33, r'serde_json::Map.*insert|map_insert_stub': 6},
                  'bounds': 'P-256 account key, public point x, y of ANY minimal length 1..32', 'asserts': 'the thumbprint JWK (input of every key authorization) encodes x and y from exactly 32 bytes'},
             ],
         },
